@@ -29,6 +29,9 @@ inductive Ev where
   | closeCall | writerClose (c : Nat) | closeReturn
   | closeCallInRecv                -- close() called from inside the receive task (from the status callback it runs)
   | connCallInRecv                 -- connect() called from inside the receive task: returns at once, that task reconnects by itself
+  | reconnStart | reconnEnd        -- life cycle of the reconnect task that a fault report schedules
+  | reconnSleep (ms : Nat)         -- its own wait before it calls connect()
+  | reconnCall                     -- the connect() call it makes (otherwise like connCall)
   | cfgWrite (c : Nat)             -- the serial client configures the adapter right after opening the port
   | cfgFail (c : Nat)              -- … and that write or drain fails: the attempt counts as failed
   | envFeed (c : Nat) | envEof (c : Nat) | envReadErr (c : Nat)
@@ -53,6 +56,9 @@ structure CS where
   faults : Nat := 0                -- connection faults seen (peer EOF / read error / write failure)
   faulted : List Nat := []         -- the links they were seen on
   everConnected : List Nat := []   -- links that were reported CONNECTED
+  reconn : Nat := 0                -- reconnect tasks alive
+  reconnSlept : Bool := false      -- the live one has waited
+  reconnCalled : Bool := false     -- … and has made its connect() call
   closeCalled : Bool := false
   closeReturned : Bool := false
   closeFromRecv : Bool := false    -- close() was called from inside the live receive task: that task is not cancelled, it ends by itself
@@ -89,20 +95,21 @@ def stepCore (s : CS) (e : Ev) : Option CS :=
   match e with
   | .connCall => some { s with calls := s.calls + 1 }
   | .connReturn =>
-    if s.prev = some .connCall then
+    if s.prev = some .connCall || s.prev = some .reconnCall then
       -- returned at once: closed, already connecting, or already connected
       guard (s.calls > 0 && (s.st = .closed || s.connActive || s.st = .connected)) { s with calls := s.calls - 1 }
     else
       -- the connect that held the lock returns: after a success, or because the client was closed
-      guard (s.calls > 0 && s.connActive && !s.implPending && (s.okConn.isSome || s.st = .closed))
-        { s with calls := s.calls - 1, connActive := false, tryNo := 0, okConn := none, lastFailed := false, slept := false }
+      -- (once CLOSED also out of an attempt that is still pending: close() cancels the reconnect task, the attempt is abandoned)
+      guard (s.calls > 0 && s.connActive && ((!s.implPending && s.okConn.isSome) || s.st = .closed))
+        { s with calls := s.calls - 1, connActive := false, tryNo := 0, okConn := none, lastFailed := false, slept := false, implPending := false }
   | .implStart =>
     -- a connection attempt: never once CLOSED; first attempt right after the call, later ones after the back-off sleep
     if s.connActive then
       guard (s.st ≠ .closed && !s.implPending && s.lastFailed && s.slept)
         { s with tryNo := s.tryNo + 1, implPending := true, lastFailed := false, slept := false }
     else
-      guard (s.st = .disconnected && s.calls > 0 && s.prev = some .connCall)
+      guard (s.st = .disconnected && s.calls > 0 && (s.prev = some .connCall || s.prev = some .reconnCall))
         { s with connActive := true, tryNo := 1, implPending := true }
   | .implFail => guard s.implPending { s with implPending := false, lastFailed := true, slept := false }
   | .implOk c =>
@@ -110,7 +117,7 @@ def stepCore (s : CS) (e : Ev) : Option CS :=
       { s with implPending := false, okConn := some c, conn := some c, nextConn := s.nextConn + 1 }
   | .sleep ms =>
     if s.lastFailed && !s.slept then guard (ms = backoff s.tryNo) { s with slept := true }
-    else guard (ms = 10 || ms = 500 || ms = 2000 || ms = 30000) s     -- 500: the wait before reconnecting after a fault on an established link
+    else guard (ms = 10 || ms = 2000 || ms = 30000) s     -- (the wait before reconnecting after a fault is `reconnSleep`)
   | .status t =>
     guard (t ≠ s.st && s.st ≠ .closed &&
            (match t with
@@ -151,6 +158,14 @@ def stepCore (s : CS) (e : Ev) : Option CS :=
                lockHolder := if s.lockHolder = some sid then none else s.lockHolder }
   | .closeCall => some { s with closeCalled := true }
   | .connCallInRecv => guard s.recv.isSome s
+  -- one reconnect task serves all fault reports: a new one is only started when none is alive
+  | .reconnStart => guard (s.reconn = 0 && s.faults > 0) { s with reconn := 1, reconnSlept := false, reconnCalled := false }
+  -- … it waits at least as long as the first retry of connect() does …
+  | .reconnSleep ms => guard (s.reconn = 1 && !s.reconnSlept && 500 ≤ ms) { s with reconnSlept := true }
+  -- … and only then calls connect(), once …
+  | .reconnCall => guard (s.reconn = 1 && s.reconnSlept && !s.reconnCalled) { s with calls := s.calls + 1, reconnCalled := true }
+  -- … and ends when that call returns, or when close() cancels it
+  | .reconnEnd => guard (s.reconn = 1 && ((s.reconnCalled && s.prev = some .connReturn) || s.st = .closed)) { s with reconn := 0 }
   | .closeCallInRecv => guard s.recv.isSome { s with closeCalled := true, closeFromRecv := true }
   | .writerClose c =>
     -- the current link is shut by close(), and when it is given up after a fault (before DISCONNECTED is reported)
